@@ -130,6 +130,38 @@ theorem incremental_partial (name : String) (ss : List Stmt) (s0 : St) (h : Fres
     rw [eo, ec]
     exact hu
 
+/-- a runner state between two `Run` calls: what `Run`'s own prologue does not establish itself -/
+def Ready (s : St) : Prop := s.lastExit = .zero ∧ s.handlingTrap = false
+
+/-- The per-call footprint of the model's `run`: running nothing changes exactly `exit`, `filename`
+    and `lastExit` (the fields listed in `modelRunWrites`). -/
+theorem run_frame (s : St) :
+    run s none [] = { s with exit := .zero, filename := "", lastExit := .zero } := by
+  simp [run, stmts, pro, fixLast, Exit.zero]
+
+/-- The regenerated table of `Runner.Run` and the model agree on that footprint: the fields the real
+    `Run` writes on every call are exactly the ones the model's prologue/epilogue write.  This is
+    what lets `incremental_ready` drop two hypotheses: `exit` and `filename` need not be assumed of
+    the starting state because `Run` itself establishes them at every call. -/
+theorem run_prologue_model :
+    runWrites.all (fun w => modelRunWrites.contains w.field) = true
+      ∧ modelRunWrites.all (fun f => runWrites.any fun w => w.field = f) = true := by
+  decide +kernel
+
+/-- `incremental_partial` with the hypotheses about `exit` and `filename` discharged by the
+    prologue (`run_frame` / `run_prologue_model`): for a non-empty file it suffices that the runner
+    is between two calls (`lastExit` zero, not inside a trap — both `zeroed` by Reset, Part A).
+    The remaining hypothesis `name = "" ∨ NoArg0` is the open finding C30-arg0-stmt-at-a-time. -/
+theorem incremental_ready (name : String) (c : Stmt) (r : List Stmt) (s0 : St) (h : Ready s0)
+    (hn : name = "" ∨ NoArg0 (c :: r) s0) : IncrementalAt name (c :: r) s0 := by
+  have hf : Fresh (pro "" s0) := ⟨rfl, h.1, h.2, rfl⟩
+  have hp := incremental_partial name (c :: r) (pro "" s0) hf hn
+  have e1 : runFile name (c :: r) (pro "" s0) = runFile name (c :: r) s0 := rfl
+  have e2 : runIncr (c :: r) (pro "" s0) = runIncr (c :: r) s0 := rfl
+  unfold IncrementalAt at hp ⊢
+  rw [e1, e2] at hp
+  exact hp
+
 /-- With a named file, `echo $0` prints the name in a whole-file run and "gosh" statement by
     statement (`Run` sets `r.filename` only for a `*syntax.File`): the full statement fails.
     Replayed on the Go code by corpus/C30-known.txt. -/
